@@ -59,10 +59,12 @@ BOUNDS = {
              "Imaging) crossed with EVERY path kind (absolute with three missing directory levels, absolute in an existing directory, relative path with "
              "missing directories, bare file name in the current directory); contents and both pixel scales symbolic (masks: old 1x3 / new 2x1 bits "
              "forked; Imaging 3x3 -> 3x4). "
+             "Derived arrays: masked Array2D (all masks for H*W <= 6, mask family for 3x3, 3x4, 4x3, 2x4, 4x2) and Array1D (lengths 1..5, all masks) in BOTH "
+             "storage modes (store_native F/T), fresh and after x + c, x * c, c - x with c symbolic, written on BOTH routes (file and HDU). "
              "Multi-extension files: 3 HDUs written through hdu_for_output, every hdu index 0..2 read back (Array2D, Kernel2D, Mask2D, Array1D; shapes "
              "2x3, 3x2, 1x3, 3x1). Imaging.output_to_fits -> from_fits: 3x3 data / noise map (> 0), 3x3 PSF with unit sum, all symbolic.",
     "thorough": "as quick, but ALL masks forked for every 2D shape with H*W <= 12 and H,W <= 8 (incl. 3x4, 4x3, 2x5, 5x2, 2x6, 6x2, 1x5..1x8, 5x1..8x1; for "
-                "more than 9 pixels the Mask2D.from_fits options are {None, (H+2,W+2)} x invert), 1D lengths 1..8, Imaging also 3x4 data; file-system histories with three content-shape pairs per array writer and two per mask writer",
+                "more than 9 pixels the Mask2D.from_fits options are {None, (H+2,W+2)} x invert), 1D lengths 1..8, Imaging also 3x4 data; derived arrays with all masks for H*W <= 9 and 1D lengths 1..8; file-system histories with three content-shape pairs per array writer and two per mask writer",
 }
 OUTSIDE = [
     "astropy's serialiser itself (byte layout, BITPIX/dtype conversion, BSCALE/BZERO scaling, header-card float formatting to 16 digits): only exercised "
@@ -571,7 +573,7 @@ def body_1d(inp, N, flip):
     return A, E
 
 
-DERIVED_OPS = (("add", lambda a, c: a + c), ("mul", lambda a, c: a * c), ("rsub", lambda a, c: c - a))
+DERIVED_OPS = (("id", lambda a, c: a), ("add", lambda a, c: a + c), ("mul", lambda a, c: a * c), ("rsub", lambda a, c: c - a))
 
 
 def body_derived(inp, H, W, flip, dims=2):
@@ -899,7 +901,16 @@ def case_derived(ctx, H, W, flip, dims=2, masks="all"):
     ctx.assume(s.t > 0)
     inputs = {"mask": mask, "v": V.real_array("v", shape), "c": V.real("c"), "s": s}
     keys = ["%dd.sn%d.%s.hdu.pixel_scales" % (dims, sn, opn) for sn in (0, 1) for opn, _ in DERIVED_OPS]
-    hx.run_body(ctx, body_derived, inputs, {"H": H, "W": W, "flip": flip, "dims": dims}, validate_every=16, tol={k: SCALE_TOL for k in keys})
+    known = {}
+    if dims == 1 and "array1d-native-unmasked" in _known_ids():
+        v, c = inputs["v"], inputs["c"]
+        for opn, opf in DERIVED_OPS:
+            terms = [V.to_real_term(opf(v[i], c)) != 0 for i in range(shape[0]) if mask[i]]
+            region = z3.Or(*terms) if terms else z3.BoolVal(False)
+            for w in ("file.native", "file.stored", "hdu.native"):
+                known["1d.sn1.%s.%s" % (opn, w)] = {"array1d-native-unmasked": region}
+    hx.run_body(ctx, body_derived, inputs, {"H": H, "W": W, "flip": flip, "dims": dims}, validate_every=16, tol={k: SCALE_TOL for k in keys},
+                known=known or None)
 
 
 def case_fs(ctx, H, W, H2, W2, flip, writer, kind):
